@@ -213,6 +213,36 @@ def _eval_all(pipes, d, names, scoped_dict=False):
     return got
 
 
+def _map_all(pipes, d, names):
+    """`map` of every pipeline on the original root values (under their current names); -> {orig output: value or
+    Exception} for the retained outputs.  The functions carry no MapSpec here: map calls each of them once."""
+    got = {}
+    inv = {v: k for k, v in names.items()}
+    for q in pipes:
+        inputs = {rc: f"v_{inv.get(rc, rc)}" for rc in q.topological_generations.root_args}
+        try:
+            res = q.map(inputs, parallel=False, storage="dict")
+        except Exception as e:  # noqa: BLE001
+            res = e
+        for o in dag.all_outputs(d):
+            cur = names.get(o, o)
+            if cur in q.all_output_names and o not in got:
+                got[o] = res if isinstance(res, Exception) else res[cur].output
+    return got
+
+
+def _reference_all_roots(d):
+    """Reference values when every root argument is given (what map does: defaults are overridden by inputs)."""
+    out = {}
+    roots = {prm for f in d["funcs"] for prm in f["params"] if prm in dag.ROOTS}
+    for o in dag.all_outputs(d):
+        try:
+            out[o] = dag.refeval(d, o, {r: f"v_{r}" for r in roots})[0]
+        except dag.NotComputable:
+            pass
+    return out
+
+
 def _reference(d):
     out = {}
     for o in dag.all_outputs(d):
@@ -283,6 +313,19 @@ def _check(case):
         for o, v in want.items():
             if o in got2 and (isinstance(got2[o], Exception) or got2[o] != v):
                 bad.append(f"after {applied}: nested-dict calling convention: output {o} -> {str(got2[o])[:120]}")
+    # ... and under map (each function is called once on whole values; every root argument is given)
+    want_m = _reference_all_roots(d)
+    base_m = _map_all([p], d, {})
+    if all(not isinstance(base_m.get(o), Exception) and base_m.get(o) == v for o, v in want_m.items()):
+        got_m = _map_all(pipes, d, names)
+        for o, v in want_m.items():
+            if o not in got_m:
+                continue
+            g = got_m[o]
+            if isinstance(g, Exception):
+                bad.append(f"after {applied}: map raised {type(g).__name__}: {str(g)[:140]} (output {o})")
+            elif g != v:
+                bad.append(f"after {applied}: under map output {o} = {g!r}, original computes {v!r}")
     lost = [o for o in want if o not in got and not any(r in ("nest", "nest-all", "simplify") for r in applied)]
     if lost:
         bad.append(f"after {applied}: outputs {lost} are no longer available")
@@ -388,8 +431,75 @@ def _check_axis(case):
     return bad[:5]
 
 
+# ---- in-place rewrites of a pipeline that has a history (results cached by earlier calls) ----------------------------
+def _history_cases(tier, rng):
+    for _ in range(300 if tier == "quick" else 3000):
+        d = dag.gen_dag(rng, rng.randint(1, 3), allow_nullary=False)
+        roots = sorted({prm for f in d["funcs"] for prm in f["params"] if prm in dag.ROOTS})
+        if len(roots) < 2:
+            continue
+        k = rng.randint(2, len(roots))
+        cyc = rng.sample(roots, k)
+        yield {"dag": d, "cache_type": rng.choice(("simple", "lru", "hybrid")),
+               "perm": {a: b for a, b in zip(cyc, cyc[1:] + cyc[:1])}, "how": rng.choice(("pipeline", "pipeline", "functions"))}
+
+
+def _check_history(case):
+    """Calls warm the cache; then the root arguments are renamed in place by a permutation of their names (a -> b,
+    b -> a): the pipeline obtained computes the original's values up to that renaming, for every input."""
+    d, perm = case["dag"], case["perm"]
+    names = [f["name"] for f in d["funcs"]]
+    try:
+        p = dag.build(d, cache_type=case["cache_type"], cached=set(names))
+    except Exception as e:  # noqa: BLE001
+        return [f"construction raised {type(e).__name__}"]
+    progs.set_log(None)
+    outs = dag.all_outputs(d)
+    for o in outs:  # history: every output once, on the inputs v_<root>
+        try:
+            got = p(o, **{r: f"v_{r}" for r in dag.needed_roots(d, o, set())})
+            if got != dag.refeval(d, o, {r: f"v_{r}" for r in dag.needed_roots(d, o, set())})[0]:
+                return []  # C02/C09's business
+        except Exception:  # noqa: BLE001
+            return []
+    try:
+        if case["how"] == "pipeline":
+            p.update_renames(dict(perm), update_from="current")
+        else:
+            for f in p.functions:
+                ren = {a: b for a, b in perm.items() if a in f.parameters}
+                if ren:
+                    f.update_renames(ren, update_from="current")
+    except Exception as e:  # noqa: BLE001
+        if "Inconsistent default values" in str(e):
+            return []  # a default that moves with one consumer's parameter onto a name with another default (C12 rule)
+        return [f"update_renames({perm}) in place raised {type(e).__name__}: {str(e)[:150]}"]
+    bad = []
+    for o in outs:
+        need = dag.needed_roots(d, o, set())
+        # the root that was called r is now called perm[r]; it is given the value v_<its current name>
+        cur = {r: perm.get(r, r) for r in need}
+        try:
+            want = dag.refeval(d, o, {r: f"v_{cur[r]}" for r in need})[0]
+        except dag.NotComputable:
+            continue
+        try:
+            got = p(o, **{cur[r]: f"v_{cur[r]}" for r in need})
+        except Exception as e:  # noqa: BLE001
+            bad.append(f"after calls and update_renames({perm}) in place: output {o} raised {type(e).__name__}: {str(e)[:120]}")
+            continue
+        if got != want:
+            bad.append(f"after calls and update_renames({perm}) in place ({case['cache_type']} cache): output {o} = {got!r}, "
+                       f"the original computes {want!r} for these inputs")
+    return bad[:4]
+
+
 def bounded_checks():
     return [
+        ("inplace-renames-after-calls", Check("inplace-renames-after-calls", _history_cases, _check_history,
+                                              "DAG x cache type x cyclic permutation of >= 2 root-argument names applied "
+                                              "in place after every output was computed once", shards=2,
+                                              nontrivial=lambda c: len(c["dag"]["funcs"]) >= 2)),
         ("rewrites-preserve-values", Check("rewrites-preserve-values", _cases, _check, RULE, shards=10,
                                            nontrivial=lambda c: len(c["dag"]["funcs"]) >= 2)),
         ("add_mapspec_axis-lifts-pointwise", Check("add_mapspec_axis-lifts-pointwise", _axis_cases, _check_axis,
